@@ -4,7 +4,12 @@ A case is JSON-able:
   {'mods': [spec, ...],           static modules in declaration order
    'dyn':  [spec, ...],           modules that only exist as the product of a Pinata's scanModules
    'sched': None | [choices]}     schedule prefix for vlib.sched (None: never preempt)
-  spec = {'name', 'cls': 'L'|'IO'|'HIO'|'PIN', 'export': bool, 'poll': bool, 'writes': [pname],
+  spec = {'name', 'cls': 'L'|'IO'|'HIO'|'PIN', 'export': bool, 'poll': bool,
+          'params': [[pname, has_write, cls_default, cls_value, cfg_default, cfg_value(, needscfg, bad)]],   parameters of the class, in the order of
+                    its accessibles: is there a write_<pname> method, Parameter(default=, value=) of the declaration and
+                    `default` / `value` given in the configuration (small integers or None = not given); optionally
+                    Parameter(needscfg=True) and "the value given in the configuration is not of the datatype"
+                    (cases recorded earlier have 'writes': [pname] instead = [pname, True, 0, None, None, 1] each)
           'atts': [[aname, target|None, mandatory, kind]], 'te': [aname], 'ti': [aname], 'fe': bool, 'fi': bool,
           'uri': str|None, 'scan': [name], 'delay': seconds,
           'wfail': [[pname, exception class name]],      start-up faults: write_<pname> raises (optional field)
@@ -122,9 +127,15 @@ def _raise_fault(modname, clsname):
         raise _fault(clsname)
 
 
+def _canon_value(value):
+    # values are small integers (as floats after the datatype); anything else is reported as it is, scaled
+    return int(value) if float(value) == int(value) else int(round(float(value) * 1000)) + 10 ** 6
+
+
 def _make_write(pname):
     def write(self, value):
         _ev('write', self.name, pname)          # the attempt: the value reaches the driver
+        _state.written.append([self.name, pname, _canon_value(value)])
         for p, clsname in _state.specs.get(self.name, AUTO_SPEC).get('wfail') or ():
             if p == pname:
                 raise _fault(clsname)           # the device refuses / the driver code is broken
@@ -133,26 +144,50 @@ def _make_write(pname):
     return write
 
 
+def legacy_param(pname):
+    """a parameter as every case configured it before parameters became part of a case: write method, declared default 0,
+    value 1 given in the configuration"""
+    return [pname, True, 0, None, None, 1]
+
+
+def params_of(spec):
+    if 'params' in spec:
+        return spec['params']
+    return [legacy_param(w) for w in spec.get('writes', [])]
+
+
+def start_params(spec):
+    """generator-side helper only (which write faults make sense): parameters the configuration gives a value for"""
+    return [q[0] for q in params_of(spec) if q[1] and (q[5] is not None or q[3] is not None)]
+
+
 def get_class(spec):
     from frappy.modules import Attached, Communicator, Readable, Parameter, Module, Property
     from frappy.datatypes import FloatRange, StringType
     from frappy.io import HasIO
     from frappy.dynamic import Pinata
     kind = spec['cls']
-    key = (kind, spec['poll'], tuple((a, bool(m), int(k)) for a, _t, m, k in spec['atts']))
+    pkey = tuple((q[0], bool(q[1]), q[2], q[3], bool(q[6]) if len(q) > 6 else False) for q in params_of(spec))
+    key = (kind, spec['poll'], tuple((a, bool(m), int(k)) for a, _t, m, k in spec['atts']), pkey)
     cls = _classes.get(key)
     if cls is not None:
         return cls
     if 'IOC' not in _classes:
         ns = {'pv': Parameter('polled', FloatRange(), default=0), 'read_pv': Instr.read_pv, 'enablePoll': True}
         ions = {'uri': Property('uri of the automatically created communicator', StringType(), default='')}
-        for w in WRITE_NAMES:
-            ns[w] = Parameter('written', FloatRange(), readonly=False, default=0)
-            ns['write_' + w] = _make_write(w)
         _classes['ns'] = ns
         # the communicator class that HasIO users create on their own
         _classes['IOC'] = type('AutoIO', (Instr, Communicator), dict(ns, **ions))
     ns = dict(_classes['ns'])
+    for pname, has_write, cls_default, cls_value, needscfg in pkey:
+        kwds = {'needscfg': True} if needscfg else {}
+        if cls_default is not None:
+            kwds['default'] = cls_default
+        if cls_value is not None:
+            kwds['value'] = cls_value
+        ns[pname] = Parameter('written', FloatRange(), readonly=False, **kwds)
+        if has_write:
+            ns['write_' + pname] = _make_write(pname)
     ns['enablePoll'] = bool(spec['poll'])
     kinds = {0: Module, 1: Communicator}
     for a, _t, m, k in spec['atts']:
@@ -184,8 +219,15 @@ def cfg_of(spec):
             cfg[a] = target
     if spec.get('uri'):
         cfg['uri'] = spec['uri']
-    for w in spec['writes']:
-        cfg[w] = {'value': 1.5}
+    for q in params_of(spec):
+        pname, cfg_default, cfg_value = q[0], q[4], q[5]
+        pcfg = {}
+        if cfg_default is not None:
+            pcfg['default'] = cfg_default
+        if cfg_value is not None:
+            pcfg['value'] = 'not a number' if len(q) > 7 and q[7] else cfg_value
+        if pcfg:
+            cfg[pname] = pcfg
     return cfg
 
 
@@ -308,12 +350,13 @@ def run_case(case, policy=None, max_steps=200000):
     specs = {sp['name']: sp for sp in case['mods'] + case.get('dyn', [])}
     log = []
     _state.log, _state.specs, _state.seen_poll, _state.shutdown_seen = log, specs, set(), False
+    _state.written = []
     if policy is None:
         policy = vsched.ReplayThenDefault(case.get('sched') or [])
     s = vsched.Scheduler(policy=policy, max_steps=max_steps)
     _state.sched = s
     out = {'log': log, 'errors': [], 'modules': [], 'edges': [], 'exit': None, 'crash': None, 'threads': [],
-           'waited': None, 'timedout': [], 'metrace': []}
+           'waited': None, 'timedout': [], 'metrace': [], 'written': _state.written}
     MultiEvent = sched_multievent(s, out['metrace'])
     handles = {}
 
@@ -403,11 +446,48 @@ def run_case(case, policy=None, max_steps=200000):
 # generators
 # =========================================================================================================
 def mkspec(name, cls='L', export=True, poll=True, writes=(), atts=(), te=(), ti=(), fe=False, fi=False, uri=None,
-           scan=(), delay=0, wfail=(), rfail=None, pfail=None):
-    return {'name': name, 'cls': cls, 'export': bool(export), 'poll': bool(poll), 'writes': list(writes),
+           scan=(), delay=0, wfail=(), rfail=None, pfail=None, params=None):
+    """`writes`: shorthand for parameters configured the plain way (`legacy_param`); `params`: the full description"""
+    return {'name': name, 'cls': cls, 'export': bool(export), 'poll': bool(poll),
+            'params': [list(q) for q in params] if params is not None else [legacy_param(w) for w in writes],
             'atts': [list(a) for a in atts], 'te': list(te), 'ti': list(ti), 'fe': bool(fe), 'fi': bool(fi),
             'uri': uri, 'scan': list(scan), 'delay': int(delay), 'wfail': [list(w) for w in wfail], 'rfail': rfail,
             'pfail': pfail}
+
+
+# what a class may declare for a parameter and what a configuration may say about it: no value / the value that is also a
+# default / other values.  [has_write, cls_default, cls_value] x [cfg_default, cfg_value]
+PARAM_DECLS = [(w, d, v) for w in (True, False) for d in (None, 0, 1) for v in (None, 0, 1, 2)]
+PARAM_CFGS = [(d, v) for d in (None, 0, 2) for v in (None, 0, 1, 2)]
+
+
+def random_param(rng, pname):
+    """any declaration x any configuration of one parameter; mostly with a write method"""
+    has_write = rng.random() < 0.85
+    cls_default = rng.choice([None, 0, 0, 1])
+    cls_value = rng.choice([None, None, None, 0, 1, 2])
+    cfg_default = rng.choice([None, None, None, 0, 2])
+    cfg_value = rng.choice([None, 0, 1, 1, 2])
+    q = [pname, has_write, cls_default, cls_value, cfg_default, cfg_value]
+    if rng.random() < 0.06:
+        # what Module.__init__ rejects: a value that is not of the datatype, a required value that is not given
+        q += [rng.random() < 0.5, cfg_value is not None and rng.random() < 0.7]
+    return q
+
+
+def decorate_params(rng, names, p_any=0.4):
+    """parameters for the names the generator wants written: configured the plain way, or (p_any) anything of the
+    catalogue - start values equal to a default, values declared in the class, defaults given in the configuration, no
+    write method; sometimes a further parameter; sometimes in another order of declaration"""
+    if rng.random() >= p_any:
+        return [legacy_param(w) for w in names]
+    params = [random_param(rng, w) if rng.random() < 0.7 else legacy_param(w) for w in names]
+    free = [w for w in WRITE_NAMES if w not in names]
+    if free and rng.random() < 0.4:
+        params.append(random_param(rng, rng.choice(free)))
+    if rng.random() < 0.3:
+        rng.shuffle(params)
+    return params
 
 
 def random_write_faults(rng, writes, p):
@@ -490,7 +570,8 @@ def build_case(rng, n, edges, variant):
             wfail = random_write_faults(rng, writes, rng.choice([0.3, 0.5, 1.0]))
         elif writes and rng.random() < 0.15:
             wfail = random_write_faults(rng, writes, 0.6)
-        mods.append(mkspec('m%d' % i, export=rng.random() < 0.7, poll=rng.random() < 0.7, writes=writes, atts=atts,
+        mods.append(mkspec('m%d' % i, export=rng.random() < 0.7, poll=rng.random() < 0.7, atts=atts,
+                           params=decorate_params(rng, writes, 0.3 if n > 1 else 0.6),
                            te=te, ti=ti, wfail=wfail, rfail=rfail, pfail=pfail))
         if rng.random() < 0.25 and 'a4' not in [x[0] for x in atts]:
             mods[-1]['atts'].append(['a4', None, False, 0])        # optional attachment left empty
@@ -543,7 +624,7 @@ def build_case(rng, n, edges, variant):
             atts = [['a%d' % j, 'm%d' % j, True, 0] for j in targets]
             writes = rng.choice([[], ['w0'], ['w0', 'w1']])
             dyn.append(mkspec(dn, export=rng.random() < 0.7, poll=rng.random() < 0.7,
-                              writes=writes, atts=atts, wfail=random_write_faults(rng, writes, 0.3),
+                              params=decorate_params(rng, writes), atts=atts, wfail=random_write_faults(rng, writes, 0.3),
                               ti=[a[0] for a in atts if rng.random() < 0.5]))
         pin = mkspec('p', cls='PIN', export=rng.random() < 0.3, poll=rng.random() < 0.5, scan=names)
         mods.insert(rng.randint(0, len(mods)), pin)
@@ -572,7 +653,7 @@ def fault_case(rng):
     mods = []
 
     def faults(sp, p):
-        sp['wfail'] = random_write_faults(rng, sp['writes'], rng.choice([0.0, 0.0, 0.4]))
+        sp['wfail'] = random_write_faults(rng, [q[0] for q in sp['params']], rng.choice([0.0, 0.0, 0.4]))
         if rng.random() < p:
             sp['rfail'] = rng.choice(FAULT_CLASSES + list(COMM_CLASSES))
         if rng.random() < p:
@@ -581,12 +662,12 @@ def fault_case(rng):
 
     if mode == 'explicit':
         mods.append(faults(mkspec('io', cls='IO', poll=rng.random() < 0.5, export=rng.random() < 0.8,
-                                  writes=rng.choice([[], [], ['w0']])), 0.15))
+                                  params=decorate_params(rng, rng.choice([[], [], ['w0']]))), 0.15))
     p = rng.choice([0.15, 0.3, 0.5])
     for i in range(k):
         writes = rng.choice([[], ['w0'], ['w1'], ['w0', 'w1'], ['w0', 'w1', 'w2'], ['w2']])
         sp = mkspec('u%d' % i, cls='L' if mode == 'own' else 'HIO', poll=rng.random() < 0.75, export=rng.random() < 0.8,
-                    writes=writes, delay=rng.choice([0, 0, 0, 0, 4]))
+                    params=decorate_params(rng, writes), delay=rng.choice([0, 0, 0, 0, 4]))
         if mode == 'explicit':
             sp['atts'].append(['io', 'io', False, 0])
         elif mode == 'uri':
@@ -595,6 +676,38 @@ def fault_case(rng):
         mods.append(faults(sp, p))
     rng.shuffle(mods)
     return {'mods': mods, 'dyn': [], 'sched': None}
+
+
+def param_cases(rng):
+    """Module._handle_writes, exhaustively: every declaration (write method, default, value) x every configuration
+    (default, value) of one parameter - on a module with its own poll thread or served by a communicator, polled or kept
+    in a poll thread only by its start values, next to a second parameter configured at random"""
+    for has_write, cls_default, cls_value in PARAM_DECLS:
+        for cfg_default, cfg_value in PARAM_CFGS:
+            q = ['w0', has_write, cls_default, cls_value, cfg_default, cfg_value]
+            params = [q]
+            if rng.random() < 0.4:
+                params.insert(rng.choice([0, 1]), random_param(rng, 'w1'))
+            poll = rng.random() < 0.5
+            if rng.random() < 0.5:
+                mods = [mkspec('m0', poll=poll, params=params, export=rng.random() < 0.8)]
+            else:
+                mods = [mkspec('io', cls='IO', poll=rng.random() < 0.5),
+                        mkspec('m0', cls='HIO', poll=poll, params=params, atts=[['io', 'io', False, 0]])]
+                if rng.random() < 0.5:
+                    mods.append(mkspec('m1', cls='HIO', poll=rng.random() < 0.5, params=decorate_params(rng, ['w0'], 0.5),
+                                       atts=[['io', 'io', False, 0]]))
+                rng.shuffle(mods)
+            yield {'mods': mods, 'dyn': [], 'sched': None}
+    # what Module.__init__ rejects, on a module that others use or that stands alone
+    for needscfg, bad in ((True, False), (False, True), (True, True)):
+        for cls_default, cls_value, cfg_value in ((None, None, None), (0, None, None), (0, 1, None), (None, None, 1), (0, None, 0)):
+            q = ['w0', True, cls_default, cls_value, None, cfg_value, needscfg, bad]
+            mods = [mkspec('m0', poll=rng.random() < 0.5, params=[q, legacy_param('w1')])]
+            if rng.random() < 0.6:
+                mods.append(mkspec('m1', atts=[['a0', 'm0', True, 0]], ti=['a0'] if rng.random() < 0.5 else []))
+                rng.shuffle(mods)
+            yield {'mods': mods, 'dyn': [], 'sched': None}
 
 
 # =========================================================================================================
@@ -630,7 +743,7 @@ def observe(case, policy=None):
     obs = {'modules': raw['modules'], 'errors': raw['errors'], 'log': log,
            'ioDict': sorted([k, v] for k, v in frappy.io.HasIO.ioDict.items()),
            'edges': raw['edges'], 'exit': raw['exit'], 'crash': raw['crash'], 'thread_errors': raw['sched']['errors'],
-           'shutdown': shutdown, 'metrace': raw['metrace']}
+           'shutdown': shutdown, 'metrace': raw['metrace'], 'written': [list(w) for w in raw['written']]}
     return obs, raw
 
 
@@ -642,23 +755,24 @@ def requests_for(case, obs):
     cfg = wire_cfg(case)
     return [{'p': 'C15', 'k': 'run', 'cfg': cfg, 'log': obs['log'], 'shutdown': obs['shutdown']},
             {'p': 'C15', 'k': 'judge', 'cfg': cfg, 'modules': obs['modules'], 'errors': obs['errors'],
-             'log': obs['log'], 'ioDict': obs['ioDict']},
+             'log': obs['log'], 'ioDict': obs['ioDict'], 'written': obs['written']},
             {'p': 'C15', 'k': 'me_follow', 'trace': obs['metrace']}]
 
 
 def model_view(model):
     return {'modules': model['modules'], 'errors': model['errors'], 'ioDict': sorted(model['ioDict']),
-            'edges': sorted({tuple(e) for e in model['edges']}), 'log': canon_log(model['log'])}
+            'edges': sorted({tuple(e) for e in model['edges']}), 'log': canon_log(model['log']),
+            'written': sorted(model['written'])}
 
 
 def impl_view(obs):
     return {'modules': obs['modules'], 'errors': obs['errors'], 'ioDict': obs['ioDict'],
             'edges': sorted({tuple(e) for e in obs['edges']}),
-            'log': obs['log']}
+            'log': obs['log'], 'written': sorted(obs['written'])}
 
 
 def first_diff(a, b):
-    for k in ('modules', 'errors', 'ioDict', 'log', 'edges'):
+    for k in ('modules', 'errors', 'ioDict', 'log', 'edges', 'written'):
         if a[k] != b[k]:
             if k == 'log':
                 for i, (x, y) in enumerate(zip(a[k], b[k])):
@@ -683,8 +797,8 @@ def features(case):
         for f in ('te', 'ti'):
             for i, a in enumerate(sp[f]):
                 items.append((f, sp['name'], i))
-        for w in sp['writes']:
-            items.append(('w', sp['name'], w))
+        for q in params_of(sp):
+            items.append(('w', sp['name'], q[0]))
         for w, _c in sp.get('wfail') or []:
             items.append(('wf', sp['name'], w))
         for f in ('fe', 'fi', 'delay', 'uri', 'rfail', 'pfail'):
@@ -708,12 +822,14 @@ def rebuild(case, items):
             if (('mod' if key == 'mods' else 'dyn'), sp['name']) not in items:
                 continue
             n = sp['name']
+            sp0 = sp
             atts = [list(a) for a in sp['atts'] if ('att', n, a[0]) in items]
             have = {a[0] for a in atts}
+            sp = {k: v for k, v in sp.items() if k != 'writes'}
             new = dict(sp, atts=atts,
                        te=[a for i, a in enumerate(sp['te']) if ('te', n, i) in items and a in have],
                        ti=[a for i, a in enumerate(sp['ti']) if ('ti', n, i) in items and a in have],
-                       writes=[w for w in sp['writes'] if ('w', n, w) in items],
+                       params=[list(q) for q in params_of(sp0) if ('w', n, q[0]) in items],
                        wfail=[list(w) for w in sp.get('wfail') or [] if ('wf', n, w[0]) in items and ('w', n, w[0]) in items],
                        fe=sp['fe'] and ('fe', n) in items, fi=sp['fi'] and ('fi', n) in items,
                        delay=sp['delay'] if ('delay', n) in items else 0,
@@ -778,6 +894,8 @@ def signature(case, clause, obs):
         tag = 'typed'
     elif any(sp['fe'] or sp['fi'] for sp in specs):
         tag = 'failing-init'
+    elif any(len(q) > 6 and (q[6] or q[7]) for sp in specs for q in params_of(sp)):
+        tag = 'rejected-parameter'
     elif any(sp.get('wfail') for sp in specs):
         tag = 'write-fault'
     elif any(sp.get('rfail') or sp.get('pfail') for sp in specs):
@@ -794,27 +912,37 @@ def signature(case, clause, obs):
 META = {
     'level_text': 'Proved on the Lean model (of the repaired code), for every configuration, fuel, schedule of start loop / poll '
                   'threads / clock and choice function of set.pop(): attached_ready, no_half_start, ready_after_first_round, '
-                  'poll_threads_stopped (whole runs); sorted_modules_topological, shutdown_phase_order, shutdown_order_whole_run '
-                  '(resolved attachments assumed acyclic); init_order_once_partial; multievent_wait_sound (MultiEvent at the '
-                  'granularity of its primitives); acyclicB_iff.  Start-up faults (any exception in write_<p>, initialReads, '
-                  'first polls): write_faults_lose_no_write (writeInitParams hands every configured value to its write method '
-                  'whatever any of them raises), startup_sequence_complete, no_write_after_first_poll (FULL: no configured value '
-                  'is written after the first poll of its module - every schedule, any faults; uses the proved invariant '
-                  'startup_groupsOk: no module is registered twice for polling), writes_before_first_poll_partial (exactly once and '
-                  'before the first poll of the module, ANY faults - communication failures in initial reads / first polls '
-                  'included: the repaired __pollThread calls writeInitParams once more behind a start-up sequence that was broken '
-                  'off; comm_failure_writes_made_up, unrepaired_prologue_skips_writes, repair_changes_only_broken_off_rounds).  '
-                  'NOT proved, kept as statements: init_order_once (full), bad_attachment_reported first half, '
-                  'writes_before_first_poll against the Spec\'s module list (missing: the link between the configuration and '
-                  'the module objects / poll thread membership), shutdown_order against the declared attachments; for these '
-                  'the evidence is differential: the real Server._processCfg + '
+                  'poll_threads_stopped (whole runs); hooks_at_most_once (FULL: in every life of a node - rejected ones, failing '
+                  'early / late initialisation, bad attachments, cycles included - earlyInit, initModule and startModule of every '
+                  'module run at most once and in that order); init_order_once_of_up (the clause InitOrderOnce itself for every '
+                  'node that came up: every module of the node exactly one earlyInit, initModule, startModule, in that order) and '
+                  'declared_modules_exist - via core_nothing_created_late (no module is created after the creation loop of a node '
+                  'that comes up); sorted_modules_topological, shutdown_phase_order, shutdown_order_whole_run (resolved attachments '
+                  'assumed acyclic); multievent_wait_sound (MultiEvent at the granularity of its primitives); acyclicB_iff.  '
+                  'Start values: handle_writes_registers_start_values (Module._handle_writes registers exactly the configured start '
+                  'values - value of the configuration, else value of the declaration - whatever the default is), '
+                  'writes_before_first_poll (FULL against the module list of the configuration, Pinatas static: exactly once and '
+                  'never after the first poll of the module, every schedule, ANY faults in write_<p>, initialReads, first polls, '
+                  'communication failures included) and start_values_handed_over (the value handed to write_<p> is the configured '
+                  'start value) - the former hypothesis Linked is discharged by configuration_linked (invariant LI of get_module / '
+                  'create_modules: every module object carries the parameters of its description, a module with something to poll '
+                  'or to write is registered with a poll thread that is started); write_faults_lose_no_write, '
+                  'startup_sequence_complete, no_write_after_first_poll, comm_failure_writes_made_up, '
+                  'unrepaired_prologue_skips_writes, repair_changes_only_broken_off_rounds; rejected_parameter_reported (a '
+                  'configured value that is not of the datatype / a missing required value makes the node report an error).  '
+                  'NOT proved, kept as statements: init_order_once_statement (missing: a clean configuration produces no error; '
+                  'existence of Pinata products and automatic communicators), bad_attachment_reported first half, shutdown_order '
+                  'against the declared attachments, writes_before_first_poll_statement without the hypothesis StaticPinatas; for '
+                  'these the evidence is differential: the real Server._processCfg + '
                   'SecNode.shutdown_modules run with instrumented module classes (fault injection included) under the '
                   'deterministic scheduler on all attachment graphs up to 4 modules (thorough: all DAGs on 5 + sampled cyclic '
-                  'graphs), the model predicts every log exactly, and the Lean monitors judge every implementation log.',
+                  'graphs) and on every declaration x configuration of a parameter, the model predicts every log and every value '
+                  'handed to a write method exactly, and the Lean monitors judge every implementation log.',
     'level_note': 'Trusted: Lean kernel + axioms propext/Classical.choice/Quot.sound; vlib.sched (virtual clock, gated threads); '
                   'multievent.py is re-executed from source with the scheduler\'s threading/time; the instrumented classes log '
                   'before calling super(); injected faults are raised by the instrumented write_/initialReads/read_ methods '
-                  '(a communication failure is logged as part of the observation).',
+                  '(a communication failure is logged as part of the observation); the instrumented write_<p> records the value '
+                  'it is handed (after the conversion by the datatype in the generated wrapper).',
     'trusted': [
         'vlib.sched: gated real threads + virtual clock reproduce an admissible interleaving of the real threads',
         'the instrumented module classes (log, then super(), then the injected fault) do not change the lifecycle',
@@ -822,13 +950,20 @@ META = {
         'follow the protocol model for which multievent_wait_sound is proved',
     ],
     'modelled_not_verified': [
-        'Module.__init__ (property/parameter configuration) — only "mandatory attachment without value" is modelled',
+        'Module.__init__ - modelled: "mandatory attachment without value", and of the parameter configuration what '
+        '_handle_writes does with declared / configured default and value (writeDict, datatype mismatch of the configured value, '
+        'needscfg); not modelled: property configuration, limits, units, datatype properties given in the configuration, '
+        'the initial value the node reports for a parameter',
+        'a writeDict entry of a parameter without a write method of the driver is handed to the generated wrapper only: no event '
+        'is observed for it (it keeps the module in a poll thread: modelled and compared)',
         'the poll loop after the first polls (only the late writeInitParams and the first poll of each module in the main loop '
         'after a broken-off start-up sequence are modelled); reconnect callbacks',
         'Dispatcher, interfaces, daemonising, signal handling, restart',
     ],
-    'assumptions': ['Pinatas are declared statically and have no attachments of their own',
-                    'module names are distinct from the names of automatically created communicators',
+    'assumptions': ['Pinatas are declared statically and have no attachments of their own (hypothesis StaticPinatas of '
+                    'writes_before_first_poll / start_values_handed_over / rejected_parameter_reported)',
+                    'module names are distinct from the names of automatically created communicators; module names and parameter '
+                    'names are dictionary keys (Nodup hypotheses)',
                     'exceptions raised by drivers are Exception subclasses (no BaseException)'],
 }
 
@@ -851,6 +986,9 @@ def run(ctx):
             for edges in all_graphs(n):
                 for v in (['plain', 'touchy', 'fail', 'missing', 'hio', 'pin', 'slow', 'wfault', 'sfault'] if n > 1 else VARIANTS):
                     yield f'n{n}', build_case(rng, n, edges, v)
+        for k in range(ctx.budget(1, 4)):           # every declaration x configuration of a parameter (_handle_writes)
+            for c in param_cases(rng):
+                yield 'params', c
         for i in range(ctx.budget(400, 4000)):      # start-up faults on shared poll threads; every third under a random schedule
             c = fault_case(rng)
             if i % 3 == 2:
@@ -931,6 +1069,17 @@ def run(ctx):
             comm = [sp for sp in specs for f in ('rfail', 'pfail') if sp.get(f) in COMM_CLASSES]
             other = [sp for sp in specs if sp.get('wfail') or sp.get('rfail') or sp.get('pfail')]
             res.count('faults.' + ('comm-failure' if comm else 'other-exception' if other else 'none'))
+        if not obs['errors']:
+            for sp in specs:
+                if sp['name'] not in obs['modules']:
+                    continue
+                for _n, has_write, cls_default, cls_value, cfg_default, cfg_value in (q[:6] for q in params_of(sp)):
+                    start = cfg_value if cfg_value is not None else cls_value
+                    default = cfg_default if cfg_default is not None else cls_default
+                    res.count('param.' + ('no-write-method' if not has_write else 'no-start-value' if start is None else
+                                          'start-value-equals-default' if start == default else
+                                          'start-value-declared-in-class' if cfg_value is None else
+                                          'start-value-no-default' if default is None else 'start-value-differs-from-default'))
         if len(specs) >= 2 and natt >= 1:
             res.nontriv(wire_cfg(case))
         if len(res.samples) < 4 and natt >= 2 and len(obs['log']) < 40 and (len(res.samples) % 2 == 0) == bool(obs['errors']):
@@ -982,6 +1131,7 @@ def replay(ctx, rp):
     print('impl   :', ' '.join('.'.join(e) for e in obs['log']))
     print('errors :', obs['errors'], ' modules:', obs['modules'])
     print('model  :', ' '.join('.'.join(e) for e in canon_log(a[0].get('log', []))), a[0].get('errors'))
+    print('written:', obs['written'], ' model:', a[0].get('written'))
     print('judge  :', a[1])
     print('multievent trace followed by the model:', a[2].get('stuck') is None, a[2])
     clause = (rp.get('detail') or {}).get('clause')
